@@ -16,6 +16,7 @@ import (
 	"path/filepath"
 	"strings"
 	"sync"
+	"sync/atomic"
 	"time"
 
 	"github.com/rqlite/rqlite/v10/cluster"
@@ -64,7 +65,7 @@ type Node struct {
 	RaftAddr string
 	APIAddr  string
 	net      *faultnet.Net
-	closed   bool
+	closed   atomic.Bool
 }
 
 type allowAll struct{}
@@ -158,6 +159,8 @@ func NewNode(fn *faultnet.Net, o Options) (*Node, error) {
 		n.Service.Close()
 		cs.Close()
 		mux.Close()
+		ln.Close()
+		fn.Unregister(n.RaftAddr)
 		return nil, fmt.Errorf("store open: %w", err)
 	}
 	return n, nil
@@ -170,15 +173,15 @@ func (n *Node) Bootstrap() error {
 
 // Close stops the node (graceful store close).
 func (n *Node) Close() error {
-	if n.closed {
+	if n.closed.Swap(true) {
 		return nil
 	}
-	n.closed = true
 	n.net.KillConns(n.Name)
 	n.Service.Close()
 	err := n.Store.Close(true)
 	n.Cluster.Close()
 	n.Mux.Close()
+	n.ln.Close() // tcp.Mux.Close only closes handed-off connections, not the listener
 	n.net.Unregister(n.RaftAddr)
 	return err
 }
@@ -260,7 +263,7 @@ func (c *Cluster) Leader() *Node {
 	c.mu.Lock()
 	defer c.mu.Unlock()
 	for _, n := range c.Nodes {
-		if !n.closed && n.Store.IsLeader() {
+		if !n.closed.Load() && n.Store.IsLeader() {
 			return n
 		}
 	}
@@ -275,7 +278,7 @@ func (c *Cluster) WaitLeader(d time.Duration) *Node {
 			ok := true
 			c.mu.Lock()
 			for _, n := range c.Nodes {
-				if n.closed {
+				if n.closed.Load() {
 					continue
 				}
 				a, _ := n.Store.LeaderAddr()
@@ -310,7 +313,7 @@ func (c *Cluster) Live() []*Node {
 	defer c.mu.Unlock()
 	var out []*Node
 	for _, n := range c.Nodes {
-		if !n.closed {
+		if !n.closed.Load() {
 			out = append(out, n)
 		}
 	}
